@@ -17,6 +17,7 @@ import OFV.Proofs.C16Freeze
 import OFV.Proofs.C16Prune
 import OFV.Proofs.C16Scbk
 import OFV.Proofs.C16Taper
+import OFV.Proofs.C16Edit
 
 namespace OFV.C16
 open OFV OFV.Spec OFV.Model OFV.Model.C16 OFV.C16P OFV.Generated
@@ -526,6 +527,47 @@ example : taperHypX eqTolerance [([(0, 1), (1, 1)], 1), ([(0, 3), (1, 3)], ⟨1/
         [[([(0, 3), (1, 3)], 1)]] false none with
       | .ok r => (r.2.1, r.2.2.2)
       | .error _ => ([], false)) = ([0], true) := by
+  decide +kernel
+
+/-- **`edit_hamiltonian_for_spin_sound`** (the public helper on its own).  For a qubit operator on `n`
+qubits whose terms are Pauli strings on distinct qubits with only `I` or `Z` on qubit
+`spin_orbital - 1`, a parity factor `±1 = (-1)^σ`, and the exactness flag of `compress` `true`,
+`edit_hamiltonian_for_spin(A, spin_orbital, parity)` has the matrix elements of `A` between all basis
+states in which that qubit holds `σ` (the states `Spec.C16.embed kept ones s`): replacing `Z` by the
+parity factor is exact on that sector. -/
+theorem edit_hamiltonian_for_spin_sound (tol : Rat) (n so σ : Nat) (par : GQ) (A : Model.Op) (hso : 1 ≤ so)
+    (hson : so ≤ n) (hσ : σ = 0 ∨ σ = 1) (hpar : par = GQ.sgn σ)
+    (hA : ∀ e ∈ A, Pauli123 e.1 ∧ e.1.Pairwise (fun a b => a.1 ≠ b.1) ∧ (∀ f ∈ e.1, f.1 < n) ∧
+      ∀ f ∈ e.1, f.1 = so - 1 → f.2 = 3)
+    (hex : compressExactB tol (editRaw A so par) = true) (s t : Nat)
+    (hs : s < 2 ^ (n - 1)) (ht : t < 2 ^ (n - 1)) :
+    GV.coeff (applyOp .qubit (editHamiltonianForSpin tol A so par)
+        [Spec.C16.embed (keptList n [so - 1]) (onesList [so - 1] [σ]) s])
+        [Spec.C16.embed (keptList n [so - 1]) (onesList [so - 1] [σ]) t]
+      = GV.coeff (applyOp .qubit A
+        [Spec.C16.embed (keptList n [so - 1]) (onesList [so - 1] [σ]) s])
+        [Spec.C16.embed (keptList n [so - 1]) (onesList [so - 1] [σ]) t] :=
+  edit_den tol n so σ par A hso hson hσ hpar hA hex s t hs ht
+
+/-- **`remove_indices_sound`** (the public helper on its own).  For a dictionary with distinct keys
+whose terms are Pauli strings below `n` that do not act on the qubits `i - 1`, `i ∈ indices` (distinct,
+`1 ≤ i ≤ n`), `remove_indices(A, indices)` has between the basis states of the `n - |indices|`
+remaining qubits the matrix elements of `A` between the states spread over the kept qubits in
+increasing order (removed qubits in `|0⟩`). -/
+theorem remove_indices_sound (n : Nat) (A : Model.Op) (idx : List Nat) (h1 : ∀ i ∈ idx, 1 ≤ i ∧ i ≤ n)
+    (hnd : idx.Nodup) (hwf : Dict.WF A)
+    (hA : ∀ e ∈ A, Pauli123 e.1 ∧ (∀ f ∈ e.1, f.1 < n) ∧ ∀ f ∈ e.1, f.1 ∉ idx.map (· - 1))
+    (s t : Nat) (hs : s < 2 ^ (n - idx.length)) (ht : t < 2 ^ (n - idx.length)) :
+    GV.coeff (applyOp .qubit (removeIndices A idx) [s]) [t]
+      = GV.coeff (applyOp .qubit A [Spec.C16.embed (keptList n (idx.map (· - 1))) [] s])
+          [Spec.C16.embed (keptList n (idx.map (· - 1))) [] t] :=
+  removeIndices_den n A idx h1 hnd hwf hA s t hs ht
+
+/-- non-vacuity: `Z_1 + 1/2 X_0 Z_1` edited at spin orbital 2 with parity `-1`, then qubit 1 removed -/
+example : compressExactB eqTolerance (editRaw [([(1, 3)], 1), ([(0, 1), (1, 3)], ⟨1/2, 0⟩)] 2 (-1)) = true ∧
+    editHamiltonianForSpin eqTolerance [([(1, 3)], 1), ([(0, 1), (1, 3)], ⟨1/2, 0⟩)] 2 (-1)
+      = [([], -1), ([(0, 1)], ⟨-1/2, 0⟩)] ∧
+    removeIndices [([], -1), ([(0, 1)], ⟨-1/2, 0⟩)] [2] = [([], -1), ([(0, 1)], ⟨-1/2, 0⟩)] := by
   decide +kernel
 
 end OFV.C16
